@@ -14,6 +14,27 @@ CHECKS = {
         technique="property-based testing with optimality-certificate oracles (Hypothesis)",
         ref="DESIGN.md section 4 C01",
     ),
+    "C02": dict(
+        level="exploration",
+        text="Generated search (Hypothesis) over the scheme space of the statement, built from harness megacomplexes with closed-form columns; the penalty vector captured exactly as scipy receives it is compared at x0 and two further points with an independent reference objective written from the statement (per-index reduced, scaled, weighted least squares; stacked problems for linked groups; equal-area penalties), plus metamorphic independence of dataset groups. Exploration: counts, feature histogram and samples are reported; nothing is proved.",
+        note="Trusted: the reference objective (vlib/oracle/refobjective.py), numpy lstsq, exhaustive active-set NNLS. Cases whose semantics the statement leaves open are discarded and counted.",
+        technique="property-based testing against a reference model + metamorphic relation (Hypothesis)",
+        ref="DESIGN.md section 4 C02",
+    ),
+    "C03": dict(
+        level="exploration",
+        text="Generated search over the C02 scheme space with confusable dataset labels, square/non-square shapes, both storage orders and noisy data; every variable of every result dataset of optimize() is compared by label and coordinate with the identities of the statement and with the reference residual/clp blocks at the optimised parameters.",
+        note="Trusted: reference objective; tolerances 1e-12..1e-8 of the data scale for per-index cond <= 1e6.",
+        technique="property-based testing against a reference model (Hypothesis)",
+        ref="DESIGN.md section 4 C03",
+    ),
+    "C13": dict(
+        level="exploration",
+        text="Generated search over optimisations of the C02 scheme space (all three methods, unused free parameters, non-negative parameters): each reported statistic is recomputed from the reported datasets, penalties and Jacobian, from the reference's counts, and from an independent re-evaluation of the objective at the optimised parameters.",
+        note="Trusted: reference objective for counts; covariance only compared when the Jacobian is clearly full rank or clearly rank deficient.",
+        technique="property-based testing with recomputation oracles (Hypothesis)",
+        ref="DESIGN.md section 4 C13",
+    ),
 }
 
 PENDING_REASON = "check not built yet in this session (planned, see DESIGN.md section 4); nothing is claimed for it"
